@@ -87,6 +87,9 @@ M = [
  ('r2_origin', 'semantic', 'lib/remote/jsonrpcconnection.cpp', 'if (m_Endpoint->GetZone() != Zone::GetLocalZone())\n\t\t\torigin->FromZone = m_Endpoint->GetZone();\n\t\telse\n\t\t\torigin->FromZone = Zone::GetByName(message->Get("originZone"));', 'origin->FromZone = Zone::GetByName(message->Get("originZone"));', 'every endpoint may claim an origin zone (the check C13 rests on)'),
  ('r2_origin', 'harmless', 'lib/remote/jsonrpcconnection.cpp', 'if (m_Endpoint->GetZone() != Zone::GetLocalZone())\n\t\t\torigin->FromZone = m_Endpoint->GetZone();\n\t\telse\n\t\t\torigin->FromZone = Zone::GetByName(message->Get("originZone"));', 'if (m_Endpoint->GetZone() == Zone::GetLocalZone())\n\t\t\torigin->FromZone = Zone::GetByName(message->Get("originZone"));\n\t\telse\n\t\t\torigin->FromZone = m_Endpoint->GetZone();', 'branches swapped with the negated test'),
  ('r2_relay', 'semantic', 'lib/remote/apilistener.cpp', '\t\ttargetZone != localZone->GetParent() &&\n', '', 'messages for the parent zone are no longer relayed'),
+ ('r2_replay', 'semantic', 'lib/remote/apilistener.cpp', 'if (pmessage->Get("timestamp") <= peer_ts)\n\t\t\t\t\tcontinue;', 'if (pmessage->Get("timestamp") < peer_ts)\n\t\t\t\t\tcontinue;', 'the entry the peer already has is replayed again'),
+ ('r2_replay', 'harmless', 'lib/remote/apilistener.cpp', '\t\t\t\t\tif (!secobj)\n\t\t\t\t\t\tcontinue;\n\n\t\t\t\t\tif (!target_zone->CanAccessObject(secobj))\n\t\t\t\t\t\tcontinue;', '\t\t\t\t\tif (!secobj || !target_zone->CanAccessObject(secobj))\n\t\t\t\t\t\tcontinue;', 'two tests merged'),
+ ('r2_cleanup', 'semantic', 'lib/remote/apilistener.cpp', 'if (endpoint->GetLogDuration() >= 0 && ts < now - endpoint->GetLogDuration())', 'if (endpoint->GetLogDuration() > 0 && ts < now - endpoint->GetLogDuration())', 'log_duration 0 keeps files for ever'),
  ('is_child_of', 'unrecognised', 'lib/remote/zone.cpp', '\tZone::Ptr azone = this;\n', '\tZone::Ptr azone = GetParent();\n', 'call outside the binding environment: degrades'),
 ]
 
